@@ -19,6 +19,9 @@
 uint64_t verif_value2bits(BufrDescriptor *bd);   /* wrap_dataset.c */
 
 static BUFR_Tables *tables = NULL;
+static unsigned long sink_bytes = 0;
+static void sink_debug(const char *msg){ if(msg) sink_bytes += strlen(msg); }
+static char *g_header = NULL;
 static jmp_buf exit_jmp; static int exit_armed = 0; static int exit_called = 0;
 void __real_exit(int);
 void __wrap_exit(int code){ if(exit_armed){ exit_called = 1; longjmp(exit_jmp, 1);} __real_exit(code); }
@@ -203,6 +206,7 @@ static void do_E(char **save){
     h_abort_armed=0; exit_armed=0;
   }
   if(rc){ printf("E rc=%d\n", rc); bufr_free_dataset(dts); return; }
+  if(g_header){ if(dts->header_string) free(dts->header_string); dts->header_string = strdup(g_header); }
   BUFR_Message *m = NULL;
   h_aborted=0; h_abort_armed=1; exit_called=0; exit_armed=1;
   if(setjmp(h_abort_jmp)==0 && setjmp(exit_jmp)==0) m = bufr_encode_message(dts, comp);
@@ -311,7 +315,14 @@ int main(void){
   while((line=h_getline())){
     char *save=NULL; char *tok=strtok_r(line," ",&save);
     if(!tok) { printf("\n"); continue; }
-    if(!strcmp(tok,"MTABLES")){ /* master tables from explicit files (other shipped versions) */
+    if(!strcmp(tok,"CFG")){ /* diagnostic switches: debug verbose meta trimzero; diagnostics go to a counting sink */
+      int d=atoi(strtok_r(NULL," ",&save)), v=atoi(strtok_r(NULL," ",&save)), m=atoi(strtok_r(NULL," ",&save)), t=atoi(strtok_r(NULL," ",&save));
+      bufr_set_debug_handler(sink_debug); bufr_set_output_handler(sink_debug);
+      bufr_set_debug(d); bufr_set_verbose(v); bufr_enable_meta(m); bufr_set_trimzero(t);
+      printf("CFG ok sink=%lu\n", sink_bytes); }
+    else if(!strcmp(tok,"HDR")){ char *h=strtok_r(NULL," ",&save); static unsigned char hb[1<<16]; int n = h?unhex(h,hb):0; hb[n]=0;
+      if(g_header) free(g_header); g_header = n? strdup((char*)hb) : NULL; printf("HDR ok %d\n", n); }
+    else if(!strcmp(tok,"MTABLES")){ /* master tables from explicit files (other shipped versions) */
       char *a=strtok_r(NULL," ",&save), *b=strtok_r(NULL," ",&save);
       if(tables) bufr_free_tables(tables);
       tables = bufr_create_tables();
